@@ -128,24 +128,22 @@ def _only(witness, allowed):
 
 
 def sig_json_started_without_result(witness):
-    """SIGNATURE of the open finding json-started-without-result: json reporter; the run was aborted by a REPORTED
-    runtime error (lazily invalid `actions`: InvalidTask inside the runner) while a task was announced (execute_task)
-    but has neither a start mark nor a final report; JsonReporter.complete_run raised TypeError; the only failed
-    monitors are C19_json and C19_exit (exit 3 instead of 2)"""
-    case = witness.get('case') or {}
-    if witness.get('reporter') != 'json' or not _only(witness, ['C19_json', 'C19_exit']):
-        return False
-    if witness.get('aborted'):
+    """SIGNATURE of the open finding json-started-without-result: json reporter; nothing planted that leaves run_tasks;
+    the run ended (reported runtime error from a lazily invalid `actions`, or a dependency cycle found while a task was
+    in flight) with a task that was announced (execute_task) but has no final report, and JsonReporter.complete_run
+    raised the TypeError of `_finished_on - _started_on` (it is in the problems list or in the traceback on stderr);
+    the only failed monitors are C19_json and C19_exit"""
+    if witness.get('reporter') != 'json' or not _only(witness, ['C19_json', 'C19_exit']) or witness.get('aborted'):
         return False
     probs = ' '.join((witness.get('detail') or {}).get('json_problems') or [])
-    if 'complete_run raised TypeError' not in probs or not (witness.get('detail') or {}).get('runtime_error'):
+    if 'complete_run raised TypeError' not in probs and '_finished_on - self._started_on' not in (witness.get('stderr') or ''):
+        return False
+    if witness.get('exit') != 3:
         return False
     tr = witness.get('trace') or []
-    lazy = [n for n, t in enumerate(case.get('tasks') or []) if (t.get('c19') or {}).get('lazy_bad')]
-    for n in lazy:
-        if ['execute', n] in tr and not any(e[0] in ('start',) + tuple(runlib.TERMINAL) and e[1] == n for e in tr):
-            return True
-    return False
+    announced = set(e[1] for e in tr if e[0] == 'execute')
+    reported = set(e[1] for e in tr if e[0] in runlib.TERMINAL)
+    return bool(announced - reported)
 
 
 def sig_unsaveable_values(witness):
@@ -154,7 +152,7 @@ def sig_unsaveable_values(witness):
     raised by dep_manager.close() in Runner.finish() -- complete_run was never called (no `complete` in the trace);
     the only failed monitors are C19_exit and (json reporter: no document, no diagnostic) C19_json"""
     case = witness.get('case') or {}
-    if not _only(witness, ['C19_exit', 'C19_json']) or witness.get('aborted'):
+    if not _only(witness, ['C19_exit', 'C19_json', 'C19_truth']) or witness.get('aborted'):
         return False
     tr = witness.get('trace') or []
     if ['complete'] in tr or witness.get('exit') != 3:
@@ -579,7 +577,9 @@ def parse_json_doc(text, ids):
     for t in data['tasks']:
         if not isinstance(t, dict) or 'name' not in t or 'result' not in t:
             return None, 'malformed task entry %r' % (t,)
-        if (t.get('started') is None) != (t.get('elapsed') is None):
+        if (t.get('started') is None) != (t.get('elapsed') is None) and not (
+                t.get('result') is None and t.get('started') is not None):
+            # (a task that was started and never got a result may have a start time and no elapsed time)
             return None, 'task entry with half timing information %r' % (t,)
         doc.append([ids.get(t['name'], 999999), t['result'], t.get('started') is not None])
     return doc, None
@@ -608,6 +608,11 @@ def c19_request(case, obs):
     req['taskVerb'] = [_extras(t).get('verbosity') for t in case['tasks']]
     req['runtimeErr'] = bool(obs.get('runtime_error'))
     req['lazyBad'] = [n for n, t in enumerate(case['tasks']) if _extras(t).get('lazy_bad')]
+    # a successful action whose values cannot be saved: in the run model this is the outcome `saveErr` (the task has to be
+    # reported as a failure of kind DependencyError after its actions ended), which is what C19_truth then demands
+    bad = [n for n, t in enumerate(case['tasks']) if _extras(t).get('bad_values') and t['outcome'] == 'ok']
+    if bad:
+        req['outcome'] = [('saveerr' if n in bad else o) for n, o in enumerate(req['outcome'])]
     return req
 
 
@@ -654,7 +659,7 @@ def py_monitor(case, obs):
     # (a run aborted by a reported runtime error may leave a task announced whose actions could not even be created)
     res['C19_exec_iff_start'] = (not complete) or all(
         m['noAct'][t] or ((t in seen_exec) == (t in started))
-        or (obs.get('runtime_error') and t not in started and t not in seen_term) for t in range(m['n']))
+        or (obs.get('runtime_error') and t not in seen_term) for t in range(m['n']))
     return res, {'expected_exit': exp, 'failure_kinds': kinds}
 
 
@@ -727,8 +732,11 @@ def failed_monitors(case, obs, ans):
         failed.append('C19_report_order')
     if kind == 'json':
         bad = bool(obs.get('problems'))
-        if lean is not None and obs.get('doc') is not None and (
+        if lean is not None and obs.get('doc') is not None and ans.get('json') != 'raises' and (
                 not isinstance(ans.get('json'), list) or _sorted_doc(ans['json']) != _sorted_doc(obs['doc'])):
+            # ('raises': the model mirrors the present TaskResult.to_dict, which raises for a started task without a
+            #  result -- open finding json-started-without-result; a tree that produces a document there is judged by the
+            #  Lean predicate jsonOK alone)
             bad = True          # (the ORDER of the list is not part of the property: compared as correspondence only)
         if bad and 'C19_json' not in failed:
             failed.append('C19_json')
@@ -787,7 +795,7 @@ def judge(case, obs, ans, base_ans, st, shrink_left):
         if py['C19_exit'] != lean.get('C19_exit', True):
             st.divergence(make_witness(case, obs, ans), 'python and Lean exit-code monitors disagree')
             return 0
-        if kind == 'json' and obs.get('doc') is not None and ans.get('json') != obs['doc']:
+        if kind == 'json' and obs.get('doc') is not None and ans.get('json') != 'raises' and ans.get('json') != obs['doc']:
             st.divergence(make_witness(case, obs, ans),
                           'correspondence JsonReporter: order of the real task list %s differs from the model\'s %s'
                           % (obs['doc'], ans.get('json')))
